@@ -255,12 +255,15 @@ def r2_order(report, repo):
   rn = [n for n, c in lib.nodes_with_call(g) if call_name(c) in SINKS]
   report.expect_instances(rule, len(rn), 1, 'renames in atomic_write')
   stage = [n for n in walk_no_nested(f.node) if isinstance(n, ast.With) and any(
-      call_name(i.context_expr) == 'open' for i in n.items)]
-  report.expect_instances(rule, len(stage), 1, 'staging file with-blocks')
-  closed = [n for n in g.nodes if n.kind == 'with_exit' and n.ast is stage[0]
-            and n.tag == 'normal']
+      call_name(i.context_expr) in ('open', 'tempfile.NamedTemporaryFile',
+                                    'io.open') for i in n.items)]
+  closed = [n for n in g.nodes if n.kind == 'with_exit' and
+            any(n.ast is st for st in stage) and n.tag == 'normal']
+  closed += [n for n, c in lib.nodes_with_call(g, attr='close')]
   ok = bool(closed) and all(g.dominated_by(
       r, lambda n: any(n is x for x in closed)) for r in rn)
+  if not stage:
+    stage = [f.node]
   report.check(ok, rule, f.qualname, 'rename-after-close', rn[0].ast,
                'the rename is dominated by the normal exit of the staging '
                'file\'s with-block (file closed and flushed without error)',
@@ -294,6 +297,33 @@ def r2_order(report, repo):
   r = [c for n, c in lib.nodes_with_call(g) if call_name(c) in SINKS][0]
   report.check([dotted(x) for x in r.args[:2]] == ['tmpf.name', 'filename'],
                rule, f.qualname, 'rename-args', r, 'rename(temp, destination)')
+
+
+def r2b_destination_untouched(report, repo):
+  rule = 'C17-R2'
+  n = 0
+  for rel, q, dest in ((CB, 'Atomic.__init__', 'filename'),
+                       (CB, 'Atomic.write', 'self.filename'),
+                       (CB, 'Atomic.close', 'self.filename'),
+                       (AW, 'atomic_write', 'filename')):
+    f = repo.func(rel, q)
+    for c in core.calls_in(f.node):
+      uses = [a for a in list(c.args) + [k.value for k in c.keywords]
+              if dotted(a) in (dest, 'self.filename')]
+      if not uses:
+        continue
+      n += 1
+      ok = call_name(c) in SINKS and len(c.args) >= 2 and \
+          dotted(c.args[1]) in (dest, 'self.filename')
+      report.check(
+          ok, rule, f.qualname, c, c,
+          '%s: the destination path is used only as the target of the '
+          'publish' % f.qualname,
+          '%s passes the destination path to %s: the destination is touched '
+          '(opened / created / truncated) outside the atomic publish, so a '
+          'failure can leave an empty or partial file there' %
+          (f.qualname, norm(c.func)))
+  report.expect_instances(rule, n, 2, 'uses of the destination path')
 
 
 def r3_filename(report, repo):
@@ -338,6 +368,7 @@ def r3_filename(report, repo):
 def run(report, repo):
   r1_publish_on_success_only(report, repo)
   r2_order(report, repo)
+  r2b_destination_untouched(report, repo)
   r3_filename(report, repo)
   report.assume('os.rename / shutil.move onto the same file system are atomic; '
                 'process kill between file-system calls is not modelled')
